@@ -230,15 +230,19 @@ func (r *Responder) RecvAndRespond(getResponse func([]byte) ([]byte, error)) err
 
 				responseBuf, err = msgformat.AddResponseFormat(responseBuf)
 				if err != nil {
-					log.Printf("AddFormat err: %v", err)
-					return
+					log.Printf("AddFormat err: %v, responding with empty response.", err)
+					responseBuf = []byte{}
 				}
 			}
 
 			responsePayload, err := r.dnsRespToUDPResp(resp, responseBuf)
 			if err != nil {
-				log.Printf("dnsRespToUDPResp err: %v", err)
-				return
+				log.Printf("dnsRespToUDPResp err: %v, responding with empty response.", err)
+				responsePayload, err = r.dnsRespToUDPResp(resp, []byte{})
+				if err != nil {
+					log.Printf("dnsRespToUDPResp err: %v", err)
+					return
+				}
 			}
 
 			if len(responsePayload) > r.maxUDPPayload {
